@@ -921,6 +921,9 @@ package apd
 //@   hint pow10_add(c.Precision - 1, etiny(c) - (x.Exponent + y.Exponent))
 //@   hint div_lt(val(x.Coeff) * val(y.Coeff), pow10(etiny(c) - (x.Exponent + y.Exponent)), pow10(c.Precision - 1))
 //@   ensures [rounded] wfctx(c) && old(bothfin(x, y)) && old(-100000 <= x.Exponent && x.Exponent <= 100000 && -100000 <= y.Exponent && y.Exponent <= 100000) ==> Rounded(c, old(x.Negative != y.Negative), old(val(x.Coeff) * val(y.Coeff)), old(x.Exponent + y.Exponent), d, ret0)
+//@   ensures [sysrange] old(bothfin(x, y)) && !old(-100000 <= x.Exponent && x.Exponent <= 100000 && -100000 <= y.Exponent && y.Exponent <= 100000) ==> hassys(ret0)
+//@   posthint rounded_bracket(c, old(x.Negative != y.Negative), old(val(x.Coeff) * val(y.Coeff)), old(x.Exponent + y.Exponent), d, ret0)
+//@   ensures [bracket] wfctx(c) && c.Precision >= 4 && old(bothfin(x, y)) && old(-100000 <= x.Exponent && x.Exponent <= 100000 && -100000 <= y.Exponent && y.Exponent <= 100000) && old(val(x.Coeff) * val(y.Coeff)) > 0 && !hassys(ret0) && !has(ret0, Subnormal) && !has(ret0, Overflow) ==> d.Form == Finite && d.Negative == old(x.Negative != y.Negative) && d.Exponent >= old(x.Exponent + y.Exponent) && d.Exponent <= old(x.Exponent + y.Exponent) + max(nd10(old(val(x.Coeff) * val(y.Coeff))) - c.Precision, 0) + 1 && 1000 * (val(d.Coeff) * pow10(d.Exponent - old(x.Exponent + y.Exponent))) >= 999 * old(val(x.Coeff) * val(y.Coeff)) && 1000 * (val(d.Coeff) * pow10(d.Exponent - old(x.Exponent + y.Exponent))) <= 1001 * old(val(x.Coeff) * val(y.Coeff))
 
 // ---------------------------------------------------------------- division
 
@@ -1490,6 +1493,8 @@ package apd
 //@   ensures [closed] closed(ret0)
 //@   ensures [inv] inv(d)
 
+// cbrtok: the contexts for which the termination of Cbrt's range reduction is proved (the working precision 2P+2 must itself be a well-formed precision)
+//@ define cbrtok(c: *Context): bool = wfctx(c) && c.Precision <= 49999
 //@ func (*Context).Cbrt
 //@   props C03 C04 C05 C06 C07 C08 C18
 //@   exported
@@ -1498,8 +1503,39 @@ package apd
 //@   outs d when ret1 == nil
 //@   ensures [invkeep] old(inv(d)) ==> inv(d)
 //@   loop 1 invariant closed(ed.Flags) && ed.Ctx == nc && nc != nil && inv(z) && inv(ax) && old(inv(d)) == inv(d)
+//@   import (*ErrDecimal).Mul: bracket, sysrange
+//@   assert before (*Context).WithPrecision#1: [basectx] BaseContext.MaxExponent == 100000 && BaseContext.MinExponent == -100000 && BaseContext.Traps == DefaultTraps
+//@   loop 1 invariant edclean(ed) && nc.MaxExponent == 100000 && nc.MinExponent == -100000 && nc.Traps == DefaultTraps && (cbrtok(c) ==> nc.Precision >= 4 && nc.Precision <= 100000 && z.Form == Finite && !z.Negative && val(z.Coeff) > 0)
+//@   loop 1 let C0 = val(z.Coeff)
+//@   loop 1 let E0 = z.Exponent
+//@   loop 1 hint mag_scale(val(z.Coeff), z.Exponent, 125, -3, -100000)
+//@   loop 1 hint bitlen_mono(val(z.Coeff) * pow10(z.Exponent + 100000), 125 * pow10(99997))
+//@   loop 1 backhint grow_step(C0, val(decimalEight.Coeff), pow10(E0 + 100000), val(z.Coeff) * pow10(z.Exponent - (E0 + decimalEight.Exponent)))
+//@   loop 1 backhint scale_split(val(z.Coeff), z.Exponent - (E0 + decimalEight.Exponent), E0 + 100000)
+//@   loop 1 backhint pow10_cong((z.Exponent - (E0 + decimalEight.Exponent)) + (E0 + 100000), z.Exponent + 100000)
+//@   loop 1 backhint bitlen_double(C0 * pow10(E0 + 100000), val(z.Coeff) * pow10(z.Exponent + 100000))
+//@   loop 1 backassert [grow] (val(z.Coeff) * pow10(z.Exponent - (E0 + decimalEight.Exponent))) * pow10(E0 + 100000) >= 2 * (C0 * pow10(E0 + 100000)) when cbrtok(c)
+//@   loop 1 backassert [eq] val(z.Coeff) * pow10(z.Exponent + 100000) == (val(z.Coeff) * pow10(z.Exponent - (E0 + decimalEight.Exponent))) * pow10(E0 + 100000) when cbrtok(c)
+//@   loop 1 backassert [pos] C0 * pow10(E0 + 100000) >= 1 when cbrtok(c)
+//@   loop 1 backassert [bl] bitlen(val(z.Coeff) * pow10(z.Exponent + 100000)) >= bitlen(C0 * pow10(E0 + 100000)) + 1 when cbrtok(c)
+//@   loop 1 decreases ite(z.Exponent < -100000 || z.Exponent > 100000, 0, 1 + bitlen(125 * pow10(99997)) - bitlen(val(z.Coeff) * pow10(z.Exponent + 100000))) when cbrtok(c)
 //@   loop 1 errexit ed
 //@   loop 2 invariant closed(ed.Flags) && ed.Ctx == nc && nc != nil && inv(z) && inv(ax) && old(inv(d)) == inv(d)
+//@   loop 2 invariant edclean(ed) && nc.MaxExponent == 100000 && nc.MinExponent == -100000 && nc.Traps == DefaultTraps && (cbrtok(c) ==> nc.Precision >= 4 && nc.Precision <= 100000 && z.Form == Finite && !z.Negative && val(z.Coeff) > 0)
+//@   loop 2 let C0 = val(z.Coeff)
+//@   loop 2 let E0 = z.Exponent
+//@   loop 2 backhint shrink_step(C0, pow10(E0 + 100000), val(z.Coeff) * pow10(z.Exponent - (E0 + decimalOneEighth.Exponent)))
+//@   loop 2 backhint scale_split(val(z.Coeff), z.Exponent - (E0 + decimalOneEighth.Exponent), E0 + 100000)
+//@   loop 2 backhint pow10_cong((z.Exponent - (E0 + decimalOneEighth.Exponent)) + (E0 + 100000), z.Exponent + 100003)
+//@   loop 2 backhint scale_split(C0, 3, E0 + 100000)
+//@   loop 2 backhint pow10_cong(3 + (E0 + 100000), E0 + 100003)
+//@   loop 2 backhint bitlen_double(val(z.Coeff) * pow10(z.Exponent + 100003), C0 * pow10(E0 + 100003))
+//@   loop 2 backassert [shrink] 2 * ((val(z.Coeff) * pow10(z.Exponent - (E0 + decimalOneEighth.Exponent))) * pow10(E0 + 100000)) <= 1000 * (C0 * pow10(E0 + 100000)) when cbrtok(c)
+//@   loop 2 backassert [eq] val(z.Coeff) * pow10(z.Exponent + 100003) == (val(z.Coeff) * pow10(z.Exponent - (E0 + decimalOneEighth.Exponent))) * pow10(E0 + 100000) when cbrtok(c)
+//@   loop 2 backassert [eq0] C0 * pow10(E0 + 100003) == 1000 * (C0 * pow10(E0 + 100000)) when cbrtok(c)
+//@   loop 2 backassert [pos] val(z.Coeff) * pow10(z.Exponent + 100003) >= 1 when cbrtok(c)
+//@   loop 2 backassert [bl] bitlen(C0 * pow10(E0 + 100003)) >= bitlen(val(z.Coeff) * pow10(z.Exponent + 100003)) + 1 when cbrtok(c)
+//@   loop 2 decreases ite(z.Exponent < -100000 || z.Exponent > 100000, 0, 1 + bitlen(val(z.Coeff) * pow10(z.Exponent + 100003))) when cbrtok(c)
 //@   loop 2 errexit ed
 //@   loop 3 invariant closed(ed.Flags) && ed.Ctx == nc && nc != nil && inv(z) && inv(ax) && inv(z0) && old(inv(d)) == inv(d)
 //@   loop 3 decreases -exp8
@@ -1740,6 +1776,31 @@ package apd
 
 // ---------------------------------------------------------------- C20: mode consistency as lemmas over the oracle (no code)
 
+//@ lemma {C04} bitlen_mono(a: int, b: int): 0 <= a && a <= b ==> bitlen(a) <= bitlen(b)
+//@ lemma {C04} bitlen_double(a: int, b: int): a >= 1 && b >= 2 * a ==> bitlen(b) >= bitlen(a) + 1
+//@ lemma {C04} grow_step(C0: int, F: int, K: int, X: int): K >= 1 && C0 >= 1 && F >= 3 && 1000 * X >= 999 * (C0 * F) ==> X * K >= 2 * (C0 * K)
+//@   using mul_le(2 * C0, X, K)
+//@   using mul_le(3 * C0, C0 * F, 1)
+//@   using mul_le(3, F, C0)
+//@ lemma {C04} shrink_step(C0: int, K: int, X: int): K >= 1 && C0 >= 1 && 1000 * X <= 1001 * (C0 * 125) ==> 2 * (X * K) <= 1000 * (C0 * K)
+//@   using mul_le(2 * X, 1000 * C0, K)
+//@ lemma {C04} scale_split(C: int, a: int, b: int): a >= 0 && b >= 0 ==> C * pow10(a + b) == (C * pow10(a)) * pow10(b)
+//@   using pow10_add(a, b)
+//@ lemma {C04} pow10_cong(a: int, b: int): a == b ==> pow10(a) == pow10(b)
+//@ lemma {C04} rb_core(C: int, T: int, q: int, v: int): T >= 1 && 1000 * T <= C && q * T <= C && C < (q + 1) * T && (v == q || v == q + 1) ==> 1000 * (v * T) >= 999 * C && 1000 * (v * T) <= 1001 * C
+//@ lemma {C04} rb_carry(p: int, sh: int): p >= 1 && sh >= 0 ==> pow10(p - 1) * pow10(sh + 1) == pow10(p) * pow10(sh)
+//@   using pow10_add(p - 1, 1)
+//@   using pow10_add(sh, 1)
+//@ lemma {C04} rb_big(p: int, C: int, sh: int): p >= 4 && sh >= 0 && C > 0 && nd10(C) == p + sh ==> 1000 * pow10(sh) <= C
+//@   using pow10_add(p - 1, sh)
+//@   using pow10_add(p - 4, 3)
+//@   using mul_le(1000, pow10(p - 1), pow10(sh))
+//@ lemma {C04} rounded_bracket(c: *Context, neg: bool, C: int, E: int, d: *Decimal, ret: cond): wfctx(c) && c.Precision >= 4 && C > 0 && RoundedNS(c, neg, C, E, d, ret) && !has(ret, Subnormal) && !has(ret, Overflow) ==> d.Form == Finite && d.Negative == neg && d.Exponent >= E && d.Exponent <= E + NSH(c, C) + 1 && 1000 * (val(d.Coeff) * pow10(d.Exponent - E)) >= 999 * C && 1000 * (val(d.Coeff) * pow10(d.Exponent - E)) <= 1001 * C
+//@   using rb_core(C, pow10(NSH(c, C)), RQ(C, NSH(c, C)), NQ2(c, neg, C))
+//@   using rb_carry(c.Precision, NSH(c, C))
+//@   using rb_big(c.Precision, C, NSH(c, C))
+//@   using rnd_value_bracket(c.Rounding, neg, C, NSH(c, C))
+//@   using rnd_bracket(c.Rounding, neg, C, NSH(c, C))
 //@ lemma {C20} rnd_bracket(m: rounder, neg: bool, C: int, sh: int): C >= 0 && sh >= 0 ==> RQ(C, sh) <= RND(m, neg, C, sh) && RND(m, neg, C, sh) <= RQ(C, sh) + 1
 //@ lemma {C20} rnd_exact(m: rounder, neg: bool, C: int, sh: int): C >= 0 && sh >= 0 && RR(C, sh) == 0 ==> RND(m, neg, C, sh) == RQ(C, sh)
 //@ lemma {C20} rnd_down_up(neg: bool, C: int, sh: int): C >= 0 && sh >= 0 ==> RND(RoundDown, neg, C, sh) == RQ(C, sh) && (RR(C, sh) != 0 ==> RND(RoundUp, neg, C, sh) == RQ(C, sh) + 1)
